@@ -36,7 +36,7 @@ def checksFirst : List Stmt → Bool → Bool
   | _ :: rest, seen => checksFirst rest seen
 
 def isHook (n : String) : Bool :=
-  n.endsWith "_impl" || n == "new_handle" || n == "dump_description" || n == "type" ||
+  (n.toList.reverse.take 5 == "_impl".toList.reverse) || n == "new_handle" || n == "dump_description" || n == "type" ||
   n == "~Device" || n == "~Naive" || n == "~Eigen"
 
 /-- every call of another member from a shared function goes to a shared
@@ -51,12 +51,12 @@ def callsShared (e : Entry) : Bool :=
 preconditions and output-shape computations before the first `*_impl` call, and
 contains no statement outside the translated subset. -/
 theorem Front.shared_checks : entries.all (fun e => checksFirst e.stmts false && callsShared e) = true := by
-  decide
+  decide +kernel
 
 /-- The functions device.cc defines are not virtual: no backend can replace a
 front-end. -/
 theorem Front.fronts_not_virtual : entries.all (fun e => !deviceVirtuals.contains e.name) = true := by
-  decide
+  decide +kernel
 
 /-- Every virtual member of `Device` is a hook, and every other member is one of
 the shared functions of the table (or an inline handle accessor). -/
@@ -64,12 +64,12 @@ theorem Front.members_partition :
     deviceVirtuals.all isHook = true ∧
     deviceMembers.all (fun m => deviceVirtuals.contains m.1 || entries.any (·.name == m.1) ||
       m.1 == "get_handle" || m.1 == "get_mutable_handle") = true := by
-  decide
+  decide +kernel
 
 /-- The two CPU backends override hooks only … -/
 theorem Front.backends_override_only_hooks :
     naiveOverrides.all isHook = true ∧ eigenOverrides.all isHook = true := by
-  decide
+  decide +kernel
 
 /-- … declare no member that would hide a shared function, and implement every
 hook. -/
@@ -77,7 +77,7 @@ theorem Front.backends_hide_nothing :
     naiveDeclared.all (fun n => !entries.any (·.name == n)) = true ∧
     eigenDeclared.all (fun n => !entries.any (·.name == n)) = true ∧
     deviceVirtuals.all (fun v => v == "~Device" || (naiveOverrides.contains v && eigenOverrides.contains v)) = true := by
-  decide
+  decide +kernel
 
 /-- The front-ends of the kernels family, as they were when the model
 (`Move.Front.*`, `Move.*`) was written: device checks, guard text, output-shape
@@ -327,6 +327,6 @@ def modelled : List Entry := [
 `batch_slice_bw`, `Move.Front.sliceBwGuard`). -/
 theorem Front.kernels_fronts_as_modelled :
     modelled.all (fun m => entries.any (fun e => e == m)) = true := by
-  decide
+  decide +kernel
 
 end Primitiv.C08.Move
